@@ -45,8 +45,10 @@ EOFT == 1
 Nil == [k |-> "nil", i |-> 0]
 TokType(i) == IF i <= Len(input) THEN input[i] ELSE EOFT
 Top == stack[Len(stack)].s
-Act(s, t) == IF t = 0 THEN [k |-> "none", n |-> 0] ELSE TAct(g, s, t)
-Expected(s) == {t \in TTerms(g) : TAct(g, s, t).k # "none"}
+\* a state number below zero is what a missing goto entry leaves on the stack of a parser whose
+\* tables are broken: no action there (the real parser cannot index its table either)
+Act(s, t) == IF t = 0 \/ s < 0 THEN [k |-> "none", n |-> 0] ELSE TAct(g, s, t)
+Expected(s) == {t \in TTerms(g) : Act(s, t).k # "none"}
 NoOut == [ok |-> FALSE, res |-> Nil, tok |-> 0, exp |-> {}, injected |-> FALSE, syms |-> <<>>]
 
 (* Parse(scanner): Reset, then the first Scan *)
@@ -94,7 +96,7 @@ Accept ==
   /\ UNCHANGED <<g, input, failAt, nxt, ncall, etok>>
 
 (* ---- syntax error: no entry for the look-ahead -------------------------- *)
-CanShiftErr(s) == TErr(g) # 0 /\ TAct(g, s, TErr(g)).k = "shift"
+CanShiftErr(s) == TErr(g) # 0 /\ Act(s, TErr(g)).k = "shift"
 RecoveryIdx == {i \in 1..Len(stack) : CanShiftErr(stack[i].s)}
 
 (* no state on the stack can shift the error symbol: return the error *)
